@@ -285,10 +285,18 @@ def bn_to_pgmpy(case, cls=None):
     from pgmpy.factors.discrete import TabularCPD
     names = [lab(x) for x in case["nodes"]]
     m = (cls or BayesianNetwork)()
-    m.add_nodes_from(names)
-    for u, v in case["edges"]:
+    # the order in which nodes, edges and CPDs are inserted is not part of a network: every case gets its own (deterministic) order
+    import random
+    prng = random.Random(len(names) * 1009 + sum((i + 1) * (u * 31 + v) for i, (u, v) in enumerate(case["edges"])) + len(str(case["cpds"][0]["table"])) if case["cpds"] else 0)
+    nodes_in, edges_in, cpds_in = list(names), [tuple(e) for e in case["edges"]], list(case["cpds"])
+    if not case.get("keep_insertion_order"):
+        prng.shuffle(nodes_in)
+        prng.shuffle(edges_in)
+        prng.shuffle(cpds_in)
+    m.add_nodes_from(nodes_in)
+    for u, v in edges_in:
         m.add_edge(names[u], names[v])
-    for c in case["cpds"]:
+    for c in cpds_in:
         m.add_cpds(cpd_to_pgmpy(case, c))
     if case.get("latents"):
         # declared latent variables change nothing about the distribution: inference must treat them as ordinary hidden nodes
